@@ -129,3 +129,16 @@ Definition chk_c04 (c : val) : val :=
 Definition chk_c04_iso (c : val) : val :=
   let impl := nthv 1 c in
   if val_eqb (nthv 0 impl) (nthv 1 impl) && val_eqb (nthv 2 impl) (nthv 3 impl) then verdict_ok else verdict_propfail 6 (VL []).
+
+(* ---------- C04, Any values wherever a body value can sit (no model: protojson with the TARGET's resolver is the reference) ----------
+   impl ( request-result  reference-result  response-text  reference-text ) :
+   7: the message produced from a body bound to a field (or the text rendered for a response_body field) differs from what
+      canonical proto3 JSON with the target's own descriptors gives - e.g. an Any inside a list element or a map value was
+      resolved somewhere else
+   4: panic *)
+Definition chk_c04_ref (c : val) : val :=
+  let impl := nthv 1 c in
+  match nthv 0 impl with
+  | VL [VN 99] => verdict_propfail 4 (VL [])
+  | _ => if val_eqb (nthv 0 impl) (nthv 1 impl) && val_eqb (nthv 2 impl) (nthv 3 impl) then verdict_ok else verdict_propfail 7 (VL [])
+  end.
